@@ -44,6 +44,16 @@ def generate(seed, tier):
          'both_initiate': r.random() < 0.4, 'packets': r.randint(2, 6), 'duration': r.choice([25, 45]), 'forced': 4,
          'forced_kinds': ['expire_soft', 'expire_hard'], 'faults': []}
     sc = workload.pair_scenario(seed, PROP, o)
+    if r.random() < 0.2:
+        # configurations that are no mirror images: one end protects "any protocol, any port" where the other names TCP / UDP and ports; the
+        # CHILD_SAs then pair a general selector with a specific one, and a packet must be admitted by both
+        side = sc['nodes'][r.choice('AB')]['conf']
+        for c_ in side.values():
+            for p_ in c_['protect']:
+                if p_.get('ip_proto', 'any') != 'any':
+                    p_['ip_proto'] = 'any'
+                    p_['my_port'] = p_['peer_port'] = 0
+        sc['meta']['proto_any_one_side'] = True
     if r.random() < 0.4:
         for _ in range(r.randint(1, 2)):
             sc['ops'].append({'t': round(r.uniform(0.95, sc['until']), 3), 'op': 'kerr', 'node': r.choice('AB'), 'nth': r.randint(1, 4),
